@@ -81,23 +81,33 @@ type Contracts struct {
 	TypeInvs map[string][]Clause // pkg.Type -> invariant clauses (receiver "self")
 	Axioms   []Clause
 	Consts   map[string]string // spec constants name -> expr
+	Macros   map[string]*Macro
+}
+
+// Macro: a parameterised specification expression evaluated in the state of its use.
+type Macro struct {
+	Pkg    string
+	Name   string
+	Params []string
+	Body   string
+	Src    string
 }
 
 var clauseKeywords = map[string]bool{
 	"requires": true, "ensures": true, "modifies": true, "let": true, "ext": true, "loop": true,
 	"onwrite": true, "hint": true, "mode": true, "assume": true, "guards": true, "owns": true,
-	"invariant": true, "inline": true, "props": true, "by": true, "oncall": true, "atexit": true, "havoc": true, "assert": true, "locks": true, "premise": true, "witness": true, "purecalls": true, "oldlet": true, "builder": true,
+	"invariant": true, "inline": true, "props": true, "by": true, "oncall": true, "atexit": true, "havoc": true, "assert": true, "locks": true, "premise": true, "witness": true, "purecalls": true, "oldlet": true, "builder": true, "dyntype": true, "inlinecalls": true,
 }
 var topKeywords = map[string]bool{
 	"func": true, "extfunc": true, "pure": true, "ghost": true, "monitor": true, "lemma": true,
-	"frozen": true, "confined": true, "typeinv": true, "axiom": true, "const": true,
+	"frozen": true, "confined": true, "typeinv": true, "axiom": true, "const": true, "macro": true,
 }
 
 var labelRe = regexp.MustCompile(`^\[([A-Za-z0-9_.+\-]+)\]\s*`)
 
 func loadContracts(repo string, pkgDirs map[string]string) (*Contracts, error) {
 	c := &Contracts{Funcs: map[string][]*FuncContract{}, Pure: map[string]*PureFunc{}, Ghost: map[string]*GhostField{},
-		Frozen: map[string]bool{}, Confined: map[string]bool{}, TypeInvs: map[string][]Clause{}, Consts: map[string]string{}}
+		Frozen: map[string]bool{}, Confined: map[string]bool{}, TypeInvs: map[string][]Clause{}, Consts: map[string]string{}, Macros: map[string]*Macro{}}
 	var paths []string
 	for p := range pkgDirs {
 		paths = append(paths, p)
@@ -185,6 +195,17 @@ func (c *Contracts) parseFile(pkgPath, file string) error {
 			c.Pure[pkgPath+"."+pf.Name] = pf
 			c.Pure[pf.Name] = pf
 			c.PureList = append(c.PureList, pf)
+		case "macro":
+			// macro name(a, b) = expr
+			curF, curM, curL, curTI = nil, nil, nil, ""
+			k := strings.Index(rest, "=")
+			po := strings.Index(rest, "(")
+			pc := strings.Index(rest, ")")
+			if k < 0 || po < 0 || pc < po || pc > k {
+				return fmt.Errorf("%s: bad macro", d.src)
+			}
+			mc := &Macro{Pkg: pkgPath, Name: strings.TrimSpace(rest[:po]), Params: splitList(rest[po+1 : pc]), Body: strings.TrimSpace(rest[k+1:]), Src: d.src}
+			c.Macros[mc.Name] = mc
 		case "const":
 			// const name = expr
 			k := strings.Index(rest, "=")
@@ -232,13 +253,13 @@ func (c *Contracts) parseFile(pkgPath, file string) error {
 		case "axiom":
 			c.Axioms = append(c.Axioms, Clause{Kind: "axiom", Expr: rest, Src: d.src})
 		case "frozen", "confined":
-			for _, x := range strings.Split(rest, ",") {
+			for _, x := range splitTop(rest, ',') {
 				x = strings.TrimSpace(x)
 				if x == "" {
 					continue
 				}
 				key := x
-				if !strings.Contains(x, "/") {
+				if !strings.Contains(x, "/") && !strings.HasPrefix(x, "elem:") && !strings.HasPrefix(x, "cell:") {
 					key = pkgPath + "." + x
 				}
 				if first == "frozen" {
